@@ -277,29 +277,38 @@ def gen_ec(r, tier, f, focus):
           f["oracle"], joint_extra=lambda j: _far_from_all(pool, j))
     ops.append(op)
 
-  fault_left = 1 if r.random() < f["fault"] else 0
+  fault_left = 1 if r.random() < max(f["fault"], 0.3) else 0
   dups = [j for j in range(n) if pool[j]["fam"] == "duplicate"]
+  if fault_left:
+    # Allocation failure inside a table build, then heal and carry on.  Placed
+    # first (or right after a restart) so that no larger table exists yet and
+    # the faulted call really has to build one.
+    md = 2 ** r.randint(12, 16) + r.choice([0, 1, 3])
+    spec = {"name": "CheckECKeySmallDifference", "how": "construct",
+            "params": {"max_diff": md}, "slot": 5, "default_equiv": True}
+    pair = [j for j in range(n) if pool[j]["fam"] == "small_diff"]
+    cid = pool[pair[0]]["curve"] if pair else c1.cid
+    batch = [j for j in pair if pool[j]["curve"] == cid]
+    batch += [j for j in range(n) if pool[j]["curve"] == cid and
+              j not in batch][:4]
+    r.shuffle(batch)
+    if len(batch) >= 2:
+      if r.random() < 0.3:
+        add_check()
+        ops.append({"op": "restart"})
+      ops.append({"op": "seam_fault", "kind": "alloc_fail",
+                  "method": r.choice(["PointSequence", "PointSequence",
+                                      "Multiply", "BatchAddX"]),
+                  "k": r.randint(0, 1)})
+      ops.append({"op": "check", "check": spec, "batch": batch,
+                  "oracle": []})
+      ops.append({"op": "heal"})
+      ops.append({"op": "check", "check": dict(spec, slot=6),
+                  "batch": batch,
+                  "oracle": [{"relation": "same", "order": list(batch)}]})
+      length += 3
   while len(ops) < length:
     u = r.random()
-    if fault_left and u < 0.12:
-      fault_left = 0
-      # allocation failure inside a table build, then heal and carry on
-      md = 2 ** r.randint(9, 15)
-      spec = {"name": "CheckECKeySmallDifference", "how": "construct",
-              "params": {"max_diff": md}, "slot": 5, "default_equiv": True}
-      batch = [j for j in range(n) if pool[j]["curve"] == c1.cid][:6]
-      if len(batch) >= 2:
-        ops.append({"op": "seam_fault", "kind": "alloc_fail",
-                    "method": r.choice(["PointSequence", "PointSequence",
-                                        "BatchAddX", "Multiply"]),
-                    "k": r.randint(0, 2)})
-        ops.append({"op": "check", "check": spec, "batch": batch,
-                    "oracle": []})
-        ops.append({"op": "heal"})
-        ops.append({"op": "check", "check": dict(spec, slot=6),
-                    "batch": batch,
-                    "oracle": [{"relation": "same", "order": list(batch)}]})
-      continue
     if dups and u < 0.17:
       # a batch made only of identical keys
       name = r.choice(["CheckECKeySmallDifference", "CheckValidECKey"])
@@ -454,7 +463,7 @@ def _sig_cost(pool, batch):
   return cost + 2.5 * len(curves)
 
 
-def _ecdsa_pool(r, f, focus):
+def _ecdsa_pool(r, f, focus, max_diff=256):
   c1 = _pick_curve(r, SIG_CURVE_WEIGHTS)
   curves = [c1]
   if r.random() < 0.35:
@@ -475,7 +484,7 @@ def _ecdsa_pool(r, f, focus):
     add_group(iss.healthy(r, max(1, nh)), None)
   fams = ["msb", "prefix", "postfix", "u2f", "weak_key", "invalid_key",
           "unknown_curve", "dup_sig", "hash_lens", "relabelled_key",
-          "shared_key_other_curve"]
+          "close_keys", "close_keys"]
   enabled = set(r.sample(fams, r.randint(0 if focus == "C18" else 1, 4)))
   for kind in ("msb", "prefix", "postfix"):
     if kind in enabled:
@@ -496,6 +505,19 @@ def _ecdsa_pool(r, f, focus):
       a["fam"] = "weak_issuer_key"
       a["healthy"] = False
     add_group(arts, None)
+  if "close_keys" in enabled:
+    # two issuers whose private keys differ by less than max_diff: each is
+    # weak only through the other one (aggregate EC check on issuer keys)
+    c = r.choice(curves)
+    d1 = r.randrange(2**64, int(c.n) - 2**64)
+    delta = r.choice([1, 2, r.randrange(1, max_diff), max_diff - 1])
+    for d in (d1, d1 + delta):
+      iss = A.Issuer(r, c, "I%d" % label, d=d, weak_key=True)
+      arts = iss.healthy(r, r.randint(1, 2))
+      for a in arts:
+        a["fam"] = "close_issuer_keys"
+        a["healthy"] = False
+      add_group(arts, None)
   if "invalid_key" in enabled:
     c = r.choice(curves)
     bad = A.ec_invalid(r, c, r.choice(A.EC_INVALID_KINDS))
@@ -563,11 +585,12 @@ def _sig_batch(r, pool, groups, whole_only=False):
 
 
 def gen_ecdsa(r, tier, f, focus):
-  pool, groups, curves = _ecdsa_pool(r, f, focus)
+  max_diff = 2 ** r.randint(8, 14)
+  pool, groups, curves = _ecdsa_pool(r, f, focus, max_diff)
   names, _ = G.active_names("ecdsa")
   n = len(pool)
-  knobs = {"clock_seed": r.getrandbits(32),
-           "max_diff": 2 ** r.randint(8, 14), "denylist": {}}
+  knobs = {"clock_seed": r.getrandbits(32), "max_diff": max_diff,
+           "denylist": {}}
   ops = []
   initial = {}
   if r.random() < f["preann"]:
@@ -622,8 +645,27 @@ def gen_ecdsa(r, tier, f, focus):
     ops.append(op)
 
   fault_left = 1 if r.random() < f["fault"] else 0
+  close = [j for j in range(n) if pool[j]["fam"] == "close_issuer_keys"]
+  if close and r.random() < 0.6 and budget > 12:
+    # first one of the two issuers alone, later both together: the verdict of
+    # the first must follow the batch, not what was seen before
+    budget -= 12
+    first_label = pool[close[0]]["issuer"]
+    alone = [j for j in close if pool[j]["issuer"] == first_label]
+    spec = {"name": "CheckIssuerKey", "how": "registry", "via": "all"}
+    ops.append({"op": "check", "check": spec, "batch": alone,
+                "issuer_oracle": True, "oracle": []})
+    length += 2
+    together_pending = {"op": "check", "check": spec, "batch": list(close),
+                        "issuer_oracle": True, "oracle": []}
+  else:
+    together_pending = None
   while len(ops) < length:
     u = r.random()
+    if together_pending is not None and len(ops) >= 2 and u < 0.35:
+      ops.append(together_pending)
+      together_pending = None
+      continue
     if fault_left and u < 0.10 and budget > 14:
       fault_left = 0
       budget -= 14
@@ -665,6 +707,8 @@ def gen_ecdsa(r, tier, f, focus):
       ops.append(_curve_op(r, curves[0]))
     else:
       ops.append(_sig_bad_call(r, names, curves[0]))
+  if together_pending is not None:
+    ops.append(together_pending)
   if ops[-1]["op"] not in ("check", "check_all"):
     add_check()
   return {"engine": "A", "kind": "ecdsa", "profile": "ecdsa", "focus": focus,
